@@ -247,6 +247,10 @@ def build_object(spec, model):
     for k, d in spec['ch'].items():
         ch[k] = _container(d['values'], d['container'])
     meas = model.expected()
+    if (len(spec['oids']) + len(spec['chids'])) % 3 == 0:
+        # the same values in column-major memory (arrays that come from a transposed
+        # channel x trial recording or from scipy.io.loadmat): a deterministic third of the cases
+        meas = np.asfortranarray(meas)
     desc = dict(spec['desc'])
     if spec['kind'] == 'tds':
         td = {k: _container(d['values'], d['container']) for k, d in spec['time'].items()}
@@ -871,6 +875,11 @@ def _df_roundtrip(st, rec):
         if len({hkey(m.row_value(r, k)) for r in m.rows}) == 1:
             nm.ds_only.add(k)
     explicit = m.obs_float or rec['a'] % 2 == 1
+    if explicit and rec.get('b', 0) % 2 == 1 and len(names) >= 2:
+        # the caller names the channel columns in an order of their own (here: reversed):
+        # the dataset then lists the channels in that order, each with its own column's data
+        nm.cols = list(reversed(nm.cols))
+        names = list(reversed(names))
     if st.live:
         from rsatoolbox.data.dataset import Dataset
         df = _call('to_df', st.obj.to_df, 'name')
